@@ -1604,7 +1604,7 @@ def main():
             inmodel.append((case, res))
         if bad:
             spec_bad[id(case)] = (case, res, bad)
-    # model on all in-scope cases
+    # ---- 2a. the extracted Coq handle model, call by call, on all in-scope histories
     mouts, maps = model_outputs(drv, inmodel, cfg, True)
     mouts0, _ = model_outputs(drv, inmodel, cfg, False)
     model_bad = []
@@ -1617,7 +1617,7 @@ def main():
                 continue
             model_bad.append((case, res, dm))
             model_dev[id(case)] = dm
-    # MPLEX layer model (cache, look-back, invalidation by putdata) on the histories it describes
+    # ---- 2b. MPLEX layer model (cache, look-back, invalidation by putdata) on the histories it describes
     mlines = []; mcases = []
     for case, (rc1, out, res) in zip(cases, results):
         if len(res) != len(case["ops"]) or case["enc"] == "sie": continue
